@@ -52,6 +52,7 @@ def mc_configs(tier):
     q = [
         ("3x3_b_c4", 3, 3, [0, 1], 4),
         ("3x3_b_c8", 3, 3, [0, 1], 8),
+        ("3x4_b_c4", 3, 4, [0, 1], 4),          # smallest scope on which the lookup-chain rewrite matters
         ("2x3_m_c8", 2, 3, [0, 1, NANV], 8),
         ("3x2_m_c4", 3, 2, [0, 1, NANV], 4),
         ("2x3_t_c4", 2, 3, [0, 1, 2], 4),
@@ -77,6 +78,7 @@ def replay_scopes(tier):
     # name, H, W, value alphabet, enumerate all masks?
     return [
         ("3x3_b", 3, 3, [0, 1], False),
+        ("3x4_b", 3, 4, [0, 1], False),
         ("2x3_b_masks", 2, 3, [0, 1], True),
         ("3x2_b_masks", 3, 2, [0, 1], True),
         ("2x2_t_masks", 2, 2, [0, 1, 2], True),
